@@ -668,7 +668,9 @@ func multiPolygonIntersectsFeature(polygons geometry.MultiPolygon, feature Featu
 		switch f.GeometryType() {
 		case GeometryTypePoint:
 			for _, polygon := range polygons {
-				return polygon.ContainsPoint(f.Point())
+				if polygon.ContainsPoint(f.Point()) {
+					return true
+				}
 			}
 		case GeometryTypePath:
 			polyline := f.Polyline()
